@@ -31,15 +31,16 @@ from harness import dfgen as G  # noqa: E402
 from torch_frame.data import MultiEmbeddingTensor, MultiNestedTensor  # noqa: E402
 
 PROP = "C11"
-HEADER = "Require Import PF.Gen.Tables PF.Model.IO PF.Model.IORun."
-MODEL_TARGETS = ["Model/IORun.vo"]
+HEADER = "Require Import PF.Gen.Tables PF.Model.IO PF.Model.IORun PF.Model.IOSup PF.Model.IOSupRun."
+MODEL_TARGETS = ["Model/IORun.vo", "Model/IOSupRun.vo"]
 SHARD = 40
 RULE = ("frames of 1-10 rows over all nine stypes (dict-valued text_tokenized, both tokenizer output formats) "
         "materialized by Dataset; saveload cases take the frame whole / as slice view / view of a view / index "
         "selection / row- and column-concatenation / zero rows / re-wrapped with an explicit num_rows, with and "
         "without target, with and without statistics, loaded with device omitted / 'cpu' / torch.device('cpu') "
         "(statistics compared by value AND container/scalar type), reuse cases saving 2-3 frames of different size "
-        "onto ONE path, plus frames WITHOUT features that carry only an explicit "
+        "onto ONE path, gens cases running 2-4 generations of select -> save -> load next to the same selections "
+        "never saved, plus frames WITHOUT features that carry only an explicit "
         "num_rows (and y) and their selections / concatenations; history cases run 2-7 events, 30 % of them with every materialize given the statistics of a training set over "
         "another table (col_stats=), 30 % of the calls with device= (materialize with/without path, new Dataset + materialize, a "
         "new Dataset over ANOTHER table restoring itself from the cache, a derived dataset (slice / shuffle / "
@@ -132,6 +133,10 @@ BOUNDARIES = [
     ("device-torch-device", "load(path, device=torch.device('cpu'))"),
     ("reuse-same-frame-twice", "the same frame saved twice onto one path (equal file sizes)"),
     ("reuse-one-row-fewer", "a frame, then the same frame minus exactly one row, onto one path"),
+    ("gens-select-of-loaded-featureless", "a feature-less frame is saved, loaded, a row selection of the LOADED frame is "
+                                          "saved and loaded again (its row count must follow the selection)"),
+    ("gens-through-empty", "generations passing through a zero-row generation"),
+    ("gens-same-generation-twice", "the identical frame saved and loaded in two consecutive generations"),
     # --- histories
     ("hist-single-materialize", "the shortest history: one materialize(path)"),
     ("hist-same-object-twice", "materialize(path) twice on the SAME object (second call is a no-op)"),
@@ -338,6 +343,27 @@ def dev_of(d):
     return None if d is None else ("cpu" if d == "cpu" else torch.device("cpu"))
 
 
+def gen_op(rng):
+    return rng.wpick([(4, {"v": "slice", "a": rng.randint(0, 9), "b": rng.randint(0, 9)}),
+                      (3, {"v": "index", "idx": [rng.randint(0, 9) for _ in range(rng.randint(0, 4))]}),
+                      (1, {"v": "catself"})])
+
+
+def gen_gens(rng, featureless_base=False):
+    """2-4 generations of select -> save -> load, all onto one path"""
+    if featureless_base:
+        c = gen_featureless(rng)
+        c["variant"]["op"] = {"v": "whole"}
+    else:
+        desc = gen_desc(rng, big=rng.chance(0.5))
+        c = {"frame": desc, "variant": {"v": "whole"}, "with_stats": rng.chance(0.7)}
+        if rng.chance(0.2):
+            c["explicit_rows"] = True
+    c.update(kind="gens", ops=[gen_op(rng) for _ in range(rng.randint(2, 4))],
+             devices=[gen_device(rng) for _ in range(2)])
+    return c
+
+
 def gen_reuse(rng):
     """Several saves onto ONE path (larger then smaller, smaller then larger, with/without statistics),
     each followed by a load that must return exactly the frame just saved."""
@@ -432,6 +458,18 @@ def gen_boundaries(rng):
     out.append({"kind": "reuse", "frame": d9, "boundary": "reuse-one-row-fewer",
                 "steps": [st(d9, {"v": "whole"}), st(d9, {"v": "index", "idx": list(range(n - 1))}), st(d9, {"v": "whole"})]})
 
+    out.append({"kind": "gens", "frame": fl(5, None), "variant": {"v": "featureless", "n": 5, "y": [1, 2, 3, 4, 5],
+                                                                    "op": {"v": "whole"}},
+                "with_stats": False, "devices": [None, "cpu"], "boundary": "gens-select-of-loaded-featureless",
+                "ops": [{"v": "slice", "a": 0, "b": 5}, {"v": "slice", "a": 1, "b": 2}, {"v": "index", "idx": [1, 0, 1]}]})
+    out.append({"kind": "gens", "frame": d9, "variant": {"v": "whole"}, "with_stats": True, "devices": [None],
+                "boundary": "gens-through-empty",
+                "ops": [{"v": "slice", "a": 1, "b": 2}, {"v": "slice", "a": 0, "b": 0}, {"v": "index", "idx": []},
+                        {"v": "catself"}]})
+    out.append({"kind": "gens", "frame": d9, "variant": {"v": "whole"}, "with_stats": True, "devices": ["torch.device"],
+                "boundary": "gens-same-generation-twice",
+                "ops": [{"v": "slice", "a": 0, "b": 4}, {"v": "slice", "a": 0, "b": 4}]})
+
     # histories
     def hist(name, desc, events, **kw):
         out.append(dict({"kind": "history", "frame": desc, "events": events, "boundary": name}, **kw))
@@ -474,7 +512,7 @@ def gen_boundaries(rng):
 
 
 def generate(rng, tier):
-    n_sl, n_h, n_t = (400, 200, 8) if tier == "quick" else (6000, 3000, 60)
+    n_sl, n_h, n_t = (260, 140, 5) if tier == "quick" else (6000, 3000, 60)
     cases = gen_boundaries(rng)
     for i in range(n_sl):
         if i % 8 == 3:
@@ -490,6 +528,8 @@ def generate(rng, tier):
         cases.append(case)
     for _ in range(n_sl // 8):
         cases.append(gen_reuse(rng))
+    for j in range(n_sl // 8):
+        cases.append(gen_gens(rng, featureless_base=(j % 4 == 0)))
     for _ in range(n_h):
         desc = gen_desc(rng)
         evs = gen_events(rng, desc["n"])
@@ -776,7 +816,7 @@ def prepare(case):
     return apply_variant(case, ds), (ds.col_stats if case["with_stats"] else None)
 
 
-def save_load_once(case, tf, stats, p):
+def save_load_once(case, tf, stats, p, keep=None):
     """torch_frame.save(tf, stats, p) -> torch_frame.load(p[, device]); everything a user can read, before/after"""
     obs = {"raw": raw_frame(tf), "pre": obs_frame(tf), "pre_tf": G.read_tf(tf), "pre_stats": stats_json(stats),
            "pre_typed": typed(stats), "pre_devices": devices_of(tf),
@@ -794,6 +834,8 @@ def save_load_once(case, tf, stats, p):
     except Exception as ex:
         obs.update(ok=False, stage="load", exc=C.exc_name(ex), msg=str(ex)[:300])
         return obs
+    if keep is not None:
+        keep.append(tf2)
     obs.update(ok=True, post=obs_frame(tf2), post_raw=raw_frame(tf2), post_tf=G.read_tf(tf2),
                post_stats=stats_json(stats2), post_typed=typed(stats2), post_devices=devices_of(tf2),
                eq_lr=bool(tf == tf2), eq_rl=bool(tf2 == tf), stats_none=stats2 is None)
@@ -808,6 +850,52 @@ def run_saveload(case):
     p = fresh_path("sl")
     try:
         return save_load_once(case, tf, stats, p)
+    finally:
+        rm(p)
+
+
+def apply_op(tf, op):
+    """a row operation of a generation, positions taken modulo the current number of rows"""
+    n = tf.num_rows
+    if op["v"] == "catself":
+        return torch_frame.cat([tf, tf], dim=0)
+    if op["v"] == "slice":
+        a = op["a"] % (n + 1)
+        return tf[a:a + op["b"] % (n - a + 1)]
+    return tf[torch.tensor([i % n for i in op["idx"]] if n else [], dtype=torch.long)]
+
+
+def run_gens(case):
+    """generations: select from the LOADED frame, save, load, select from that, ... -- next to the same chain
+    of selections that never touches the disk"""
+    try:
+        tf, stats = prepare(case)
+    except Exception as ex:
+        return {"skip": f"preparation raised {C.exc_name(ex)}: {str(ex)[:200]}"}
+    p = fresh_path("g")
+    obs = {"steps": []}
+    pure = cur = tf
+    try:
+        for j, op in enumerate(case["ops"]):
+            try:
+                pure = apply_op(pure, op)
+            except Exception as ex:
+                obs["stopped"] = f"the selection itself raises ({C.exc_name(ex)}): C07's business"
+                break
+            try:
+                sel = apply_op(cur, op)
+            except Exception as ex:
+                obs["steps"].append({"ok": False, "stage": "select-of-loaded", "exc": C.exc_name(ex), "msg": str(ex)[:300]})
+                break
+            keep = []
+            o = save_load_once({"device": case["devices"][j % len(case["devices"])]}, sel, stats, p, keep)
+            o["sel_same"] = obs_frame(sel) == obs_frame(pure) and raw_frame(sel)["num_rows"] == raw_frame(pure)["num_rows"]
+            o["pure"] = obs_frame(pure)
+            obs["steps"].append(o)
+            if not o["ok"]:
+                break
+            cur = keep[0]
+        return obs
     finally:
         rm(p)
 
@@ -1168,6 +1256,8 @@ def run(case):
         return run_saveload(case)
     if case["kind"] == "reuse":
         return run_reuse(case)
+    if case["kind"] == "gens":
+        return run_gens(case)
     if case["kind"] == "history":
         return run_history(case)
     return run_trunc(case)
@@ -1219,6 +1309,24 @@ def oracle_saveload(case, obs):
     if obs["post_devices"] != obs["pre_devices"]:
         return dict(key="device-differs", what=f"loaded tensors live on {obs['post_devices']}, saved ones on "
                     f"{obs['pre_devices']}", expected=obs["pre_devices"], observed=obs["post_devices"])
+    return None
+
+
+def oracle_gens(case, obs):
+    for j, o in enumerate(obs["steps"]):
+        if o.get("stage") == "select-of-loaded":
+            return dict(key="gens:selection-of-loaded-raises", what=f"generation {j + 1}: {case['ops'][j]} applied to the "
+                        f"LOADED frame raised {o['exc']} ({o['msg']}) where the same selection of the never-saved frame works")
+        if not o["sel_same"]:
+            return dict(key="gens:selection-of-loaded-differs",
+                        what=f"generation {j + 1}: {case['ops'][j]} applied to the frame loaded the generation before "
+                             "differs from the same selection of the frame that was never saved",
+                        expected=o["pure"], observed=o["pre"])
+        f = oracle_saveload({"variant": {"v": f"generation-{j + 1}"}, "device": case["devices"][j % len(case["devices"])]}, o)
+        if f is not None:
+            f["key"] = "gens:" + f["key"]
+            f["what"] = f"generation {j + 1} of {len(case['ops'])} ({case['ops'][j]}): " + f["what"]
+            return f
     return None
 
 
@@ -1402,6 +1510,8 @@ def oracle(case, obs):
         return oracle_saveload(case, obs)
     if case["kind"] == "reuse":
         return oracle_reuse(case, obs)
+    if case["kind"] == "gens":
+        return oracle_gens(case, obs)
     if case["kind"] == "history":
         return oracle_history(case, obs)
     return oracle_trunc(case, obs)
@@ -1425,6 +1535,17 @@ def shrink(case):
         ev = case["events"]
         for k in range(len(ev)):
             yield dict(case, events=ev[:k] + ev[k + 1:])
+    if case["kind"] == "gens":
+        ops = case["ops"]
+        for k in range(len(ops)):
+            if len(ops) > 1:
+                yield dict(case, ops=ops[:k] + ops[k + 1:])
+        if any(d is not None for d in case["devices"]):
+            yield dict(case, devices=[None])
+        if case["variant"]["v"] != "featureless":
+            for d in shrink_frame(case["frame"]):
+                yield dict(case, frame=d)
+        return
     if case["kind"] == "reuse":
         st = case["steps"]
         for k in range(len(st)):
@@ -1472,6 +1593,11 @@ def nontrivial_sig(case, obs):
             return None
         sig += [case["variant"]["v"], case["variant"].get("op", {}).get("v"), bool(case.get("explicit_rows")),
                 obs["pre"]["n"], obs["pre"]["y"] is not None, case["with_stats"], obs["file_len"], case.get("device")]
+    elif case["kind"] == "gens":
+        if len([o for o in obs["steps"] if o.get("ok")]) < 2:
+            return None
+        sig += [case["variant"]["v"], [(op["v"], o.get("pre", {}).get("n"), o.get("file_len"))
+                                       for op, o in zip(case["ops"], obs["steps"])], case["devices"]]
     elif case["kind"] == "reuse":
         if len(obs["steps"]) < 2:
             return None
@@ -1510,6 +1636,8 @@ def stats(cases, obss):
             d["stypes"][s] = d["stypes"].get(s, 0) + 1
         if c["frame"]["target"] is None:
             d["without_target"] += 1
+        if c["kind"] == "gens":
+            d["generations"] = d.get("generations", 0) + len([x for x in o["steps"] if x.get("ok")])
         if c["kind"] == "reuse":
             lens = [x.get("file_len") for x in o["steps"]]
             d["reuse_saves"] = d.get("reuse_saves", 0) + len(lens)
@@ -1588,6 +1716,12 @@ def boundary_hit(name, case, obs):
             "all-missing": n == 3,
         }
         return checks.get(name, True)
+    if k == "gens":
+        ns = [o.get("pre", {}).get("n") for o in obs["steps"] if o.get("ok")]
+        if len(ns) != len(case["ops"]):
+            return False
+        return {"gens-select-of-loaded-featureless": ns == [5, 2, 3], "gens-through-empty": 0 in ns,
+                "gens-same-generation-twice": ns[0] == ns[1]}.get(name, True)
     if k == "reuse":
         lens = [o.get("file_len") for o in obs["steps"]]
         if name == "reuse-same-frame-twice":
@@ -1656,7 +1790,7 @@ def sanity(cases, obss):
         if d["boundaries"].get(b, 0) == 0:
             probs.append(f"boundary {b} not reached")
     for k in ("reuse_smaller_after_larger", "reuse_larger_after_smaller", "load_device:None", "load_device:cpu",
-              "load_device:torch.device", "materialize_with_device", "supplied_stats_cache_writes"):
+              "load_device:torch.device", "materialize_with_device", "supplied_stats_cache_writes", "generations"):
         if d.get(k, 0) == 0:
             probs.append(f"{k} never drawn")
     for k in ("mat", "new", "newdf", "derived", "rewrite", "cut", "crash", "conv"):
@@ -1762,6 +1896,15 @@ def coq_term(case, obs):
         else:
             iobs = "IRaise"
         return f"check_save_load {coq_frame(obs['raw'])} {C.cz(cs)} {iobs}"
+    if case["kind"] == "gens":
+        # Model/IOSup.v `generations`, evaluated on the frames the implementation saved at each generation
+        steps = obs["steps"]
+        if not steps or not all(o.get("ok") for o in steps) or not all(ascii_ok(o["raw"]) for o in steps):
+            return None
+        cs = digest(steps[0]["pre_stats"])
+        last = steps[-1]
+        iobs = f"(IMat {coq_frame_obs(last['post'])} {C.cz(digest(last['post_stats']))})"
+        return f"check_generations {C.clist([coq_frame(o['raw']) for o in steps])} {C.cz(cs)} {iobs}"
     if case["kind"] == "reuse":
         terms = [coq_term(dict(st, kind="saveload"), o) for st, o in zip(case["steps"], obs["steps"])]
         if not terms or any(t is None for t in terms):
@@ -1782,8 +1925,10 @@ def coq_term(case, obs):
             mat_obs = lambda: (f"(IMat {coq_frame_obs(st['tf'])} {C.cz(digest(st['stats']))})"   # noqa: E731
                                if st["ok"] else "IRaise")
             if ev["e"] == "derived":
-                # the derived object is outside the model (its frame is not the fresh one); with the cache
-                # file present its materialize(path) is a no-op on the world, which is what the oracle checks
+                # Model/IOSup.v: d = cur[sel]; d.materialize(path or None, col_stats=...).  The harness runs it
+                # only while the file exists, where the selection itself cannot matter (identity stands for it).
+                segs[-1][1].append(f"DER {C.cbool(ev.get('path', True))}")
+                segs[-1][2].append(f"(IDerived {C.cbool(not st['ok'])})")
                 continue
             if ev["e"] == "rewrite":
                 if ev["how"] == "remove":         # no file, new object over the other table, materialize(path)
@@ -1819,6 +1964,10 @@ def coq_term(case, obs):
         for rid, evs, ios in segs:
             r = obs["refs"][rid]
             fresh = f"({coq_frame(r['raw'])}, {C.cz(digest(r['stats']))})"
-            terms.append(f"check_history {fresh} {C.clist(evs)} {C.clist(ios)}")
+            # every materialize of the segment is handed the same statistics argument (Model/IOSup.v)
+            sup = f"(Some {C.cz(digest(['supplied', r['stats']]))})" if r.get("supplied") else "None"
+            evsS = [f"DerivedMat (fun t => t) {e[4:]} {sup}" if e.startswith("DER ") else f"EvS {sup} ({e})" for e in evs]
+            iosS = [i_ if i_.startswith("(IDerived") else f"(II {i_})" for i_ in ios]
+            terms.append(f"check_historyS {sup} {fresh} {C.clist(evsS)} {C.clist(iosS)}")
         return "(" + " && ".join(terms) + ")"
     return None
